@@ -141,13 +141,14 @@ CLAIMED = {
     text="Coq theorems C16_constraint / C16_logic / C16_spin: every constraint method (six comparison relations on PCBO and "
          "PCSO with every branch, the sixteen logic methods) is homogeneous in its weight -- two runs of the same call that "
          "differ only in lam != 0 take the same branch, give the same warning, record the same constraint, leave the same "
-         "ancilla counter and add lam1*G resp. lam2*G for one and the same G; C16_affine: model(c) = m + c*(model(1) - m). "
+         "ancilla counter and add lam1*G resp. lam2*G for one and the same G; C16_affine: model(c) = m + c*(model(1) - m); "
+         "C16_reduce_affine: the reduced forms with a constant penalty c are Base + c*Pen with Base, Pen independent of c. "
          "That is the part of 'build with a symbol, then subs' that lives in qubovert's code: no branch inspects the value of "
          "lam. sympy's ring arithmetic, subs and float conversion are outside the model and are tied in by the correspondence "
          "run: the symbolic build after subs(symbol -> c) is compared with the numeric build (terms, type, constraints, "
          "ancilla count, original unchanged) and with the Gallina model at c, also with a symbol inside the constraint polynomial.",
-    note="Trusted: Coq kernel + vm_compute; no axioms; hand-written model; harness; sympy is exercised, not modelled. The "
-         "homogeneity of the reduced forms (to_qubo etc. with a symbolic penalty) is covered by the correspondence run only.",
+    note="Trusted: Coq kernel + vm_compute; no axioms; hand-written model; harness; sympy is exercised, not modelled "
+         "(its ring arithmetic, subs and float conversion are what the correspondence run adds to the theorems).",
     technique="Coq proof (two-run simulation over all branches) + model/implementation correspondence", ref="§5 C16"),
  "C01": dict(
     text="Coq theorems about PUBO._reduce_degree (the function behind all eight to_* methods), for every labelled model, "
